@@ -2,6 +2,16 @@ import json,sys
 pid=sys.argv[1]; tag=sys.argv[2] if len(sys.argv)>2 else ""
 props={json.loads(l)['id']:json.loads(l) for l in open('/verif/properties.jsonl')}
 p=props[pid]
+import glob, os
+prev=''
+olds=[]
+for d in sorted(glob.glob('/verif/seeded/agent-%s-*' % pid)):
+    try:
+        m=json.load(open(d+'/meta.json'))
+        olds.append('  - '+(m.get('needs') or m.get('description') or '')[:260].replace('\n',' '))
+    except Exception: pass
+if olds and tag:
+    prev='ALREADY explored in earlier rounds (do NOT repeat these ideas or close variants; find different mechanisms, different functions, different input classes):\n'+'\n'.join(olds)+'\n\n'
 print(f"""You are helping test a verification effort for the open-source project theandrew168/bronzebeard (a pure-Python RISC-V assembler, bronzebeard/asm.py, plus a DFU flasher, bronzebeard/dfu.py).
 
 You have your own scratch git worktree of the project at /root/mw-{pid}{tag} (work ONLY there; never touch /repo or /verif, and do not read anything under /verif). Run the test suite with:
@@ -28,4 +38,4 @@ For each change i in 1..3 write into /root/mut-out/{pid}{tag}/m<i>/ :
   - demo.py    : a self-contained script (run as `PYTHONPATH=<checkout> /venv/bin/python demo.py` from the checkout root) that exits 0 on the unmodified code and exits non-zero (printing what went wrong) on the patched code, demonstrating the property violation through the public behaviour named under "observed at"
   - notes.txt  : 3-6 lines: what the change is, which inputs it needs to show up, why the tests do not notice
 After producing each patch, run `git -C /root/mw-{pid}{tag} checkout -- .` (and `git clean -fd` for files you created in the worktree other than your outputs) so each patch is against the clean HEAD. Verify for each: tests pass with the patch applied; demo exits 0 without and non-zero with it.
-When finished, leave the worktree clean and reply with a short list of the three changes (one line each).""")
+{prev}When finished, leave the worktree clean and reply with a short list of the three changes (one line each).""")
